@@ -282,9 +282,13 @@ func (e *Enc) sel(v View, heap string, loc Loc) string {
 		for i := len(x.views) - 2; i >= 0; i-- {
 			t = "(ite " + x.conds[i] + " " + e.sel(x.views[i], heap, loc) + " " + t + ")"
 		}
-		n := e.freshConst("ld", e.heaps[heap].res)
-		e.define(n, t)
-		out = n
+		if e.quant > 0 {
+			out = t // under a binder: the term may mention the bound variable, so it cannot be named
+		} else {
+			n := e.freshConst("ld", e.heaps[heap].res)
+			e.define(n, t)
+			out = n
+		}
 	}
 	e.selMemo[key] = out
 	return out
